@@ -186,6 +186,11 @@ def opt_jobs(ck, behs, quick):
     if k + 2 < D:
       jobs.append({"impl": "dsrun", "o": o, "shape": shapes[gi % 3], "behs": sel, "tol": TOL32,
                    "seed": ck.seed * 31 + gi, "mixed": False})
+    # ... with an axis too small to sketch (<= k + 2) in FRONT of the sketched one: the small axis keeps ordinary
+    # Shampoo statistics, the large one must still be fed the gradient factor of frequent directions
+    if d <= k + 2 and k + 2 < D:
+      jobs.append({"impl": "dsrun", "o": o, "shape": (k + 2, D), "behs": sel[:max(8, per // 4)], "tol": TOL32,
+                   "seed": ck.seed * 31 + gi, "mixed": False})
     # ... and of two sizes (known finding on the smaller one)
     if c["ridge"] == 0 and gi % 2 == 0 and k + 2 < D:
       jobs.append({"impl": "dsrun", "o": o, "shape": (D, D + 2), "behs": sel[:max(8, per // 5)],
